@@ -37,7 +37,9 @@ BUDGET = {
     "C17": (600, 25000), "C18": (400, 4000), "C19": (1, 1), "C20": (500, 20000),
 }
 QUICK_SECONDS = 75          # wall-clock cap of a quick campaign (inconclusive past it, never a violation)
-THOROUGH_SECONDS = 900
+THOROUGH_SECONDS = int(os.environ.get("MVH_THOROUGH_SECONDS", "420"))
+FUZZ_SECONDS = int(os.environ.get("MVH_FUZZ_SECONDS", "150"))      # coverage-guided stage of the thorough tier
+NO_FUZZ = ("C18", "C19")    # standalone checks without the program interpreter
 
 
 def mvh(bindir):
@@ -356,6 +358,75 @@ def check(prop, tier):
         shutil.copy(small, dest)
         judge(dest, st, tag, detail, "campaign")
 
+    # 2b. coverage-guided stage (thorough tier): libFuzzer drives the same generators through a
+    # byte-string decoder; only saved failing programs / crash artifacts count
+    fuzz_stats = {"execs": 0, "nontrivial": 0, "seconds": 0, "workers": 0}
+    if tier == "thorough" and prop not in NO_FUZZ:
+        fz = os.path.join(bindir, "fz_mvh")
+        fdir = os.path.join(work, "fuzz")
+        os.makedirs(fdir)
+        fenv = dict(ENV)
+        fenv["MVH_FUZZ_PROP"] = prop
+        fenv["MVH_FUZZ_OUT"] = fdir
+        procs = []
+        for w in range(NCPU):
+            cdir = os.path.join(fdir, "corpus%d" % w)
+            os.makedirs(cdir)
+            # starting corpus: byte strings long enough to feed every generator decision (an empty
+            # corpus decodes to the smallest program only); half the workers start empty-ish
+            import random
+            rr = random.Random(seed * 1000 + w)
+            for k in range(2 if w % 2 else 12):
+                with open(os.path.join(cdir, "seed%d" % k), "wb") as f:
+                    f.write(bytes(rr.getrandbits(8) for _ in range(rr.choice([64, 512, 2048, 4096]))))
+            cmd = [fz, "-max_total_time=%d" % FUZZ_SECONDS, "-max_len=8192", "-seed=%d" % (seed * 1000 + w + 1),
+                   "-artifact_prefix=%s/w%d-" % (fdir, w), "-timeout=120", "-rss_limit_mb=4096", cdir]
+            procs.append(subprocess.Popen(cmd, stdout=subprocess.DEVNULL, stderr=subprocess.DEVNULL, env=fenv, cwd=fdir))
+        for p in procs:
+            try:
+                p.wait(timeout=FUZZ_SECONDS + 300)
+            except subprocess.TimeoutExpired:
+                p.kill()
+        fuzz_stats["seconds"] = FUZZ_SECONDS
+        fuzz_stats["workers"] = NCPU
+        for name in os.listdir(fdir):
+            if name.startswith("fuzz-stats-"):
+                try:
+                    a, b = open(os.path.join(fdir, name)).read().split()
+                    fuzz_stats["execs"] += int(a)
+                    fuzz_stats["nontrivial"] += int(b)
+                except (OSError, ValueError):
+                    pass
+        cands = []
+        for name in sorted(os.listdir(fdir)):
+            pth = os.path.join(fdir, name)
+            if name.startswith("fuzz-fail-") and name.endswith(".mvh"):
+                cands.append(pth)
+            elif re.match(r"w\d+-(crash|leak)-", name):
+                # a sanitizer abort inside the library: decode the bytes into the program they stand for
+                r = subprocess.run([mvh(bindir), "decode", pth, "--property", prop], stdout=subprocess.PIPE, env=ENV)
+                dec = pth + ".mvh"
+                with open(dec, "wb") as f:
+                    f.write(r.stdout)
+                cands.append(dec)
+        seen_tags = set()
+        for src in cands[:24]:
+            st, tag, detail = run_replay(bindir, src, prop)
+            if st not in ("fail", "crash"):
+                inconclusive.append("fuzz: %s did not reproduce on replay (%s)" % (os.path.basename(src), st))
+                continue
+            if tag in seen_tags:
+                continue
+            seen_tags.add(tag)
+            small = src + ".min"
+            final, _ = shrink(bindir, src, prop, tag, small, budget_s=200)
+            if final is None:
+                continue
+            h = hashlib.sha256(final.encode()).hexdigest()[:12]
+            dest = os.path.join(work, "fail-%s.mvh" % h)
+            shutil.copy(small, dest)
+            judge(dest, st, tag, detail, "campaign")
+
     # promote violations to a stable replay path
     out_violations = []
     for path, tag, detail, origin in violations:
@@ -369,7 +440,7 @@ def check(prop, tier):
     # 3. evidence
     labels = stats["labels"]
     cov = {
-        "evaluations": int(stats["cases"] + replayed),
+        "evaluations": int(stats["cases"] + replayed + fuzz_stats["execs"]),
         "distinct_nontrivial": int(stats["distinct_nontrivial"]),
         "rule": rule_text(bindir, prop),
         "samples": stats["samples"][:3] if stats["samples"] else ["(no non-trivial sample recorded)"],
@@ -379,6 +450,7 @@ def check(prop, tier):
         "nontrivial_cases": stats["nontrivial"],
         "labels": {k: v for k, v in sorted(labels.items()) if not k.startswith("cases_with.")},
         "cases_with_label": {k[11:]: v for k, v in sorted(labels.items()) if k.startswith("cases_with.")},
+        "fuzzing": fuzz_stats,
         "inconclusive": inconclusive,
         "known_findings_reported": known_lines,
         "violations": [{"replay": p, "tag": t, "detail": d[-600:]} for p, t, d in out_violations],
